@@ -49,7 +49,7 @@ def write(pid, name, lines, comment):
 nal = "65" + "11" * 140 + "00000301" + "22" * 60
 write("C02", "d0-window", [f"rbsp {nal} 1 1 " + " ".join(["r64"] * 6) + " f", f"rbsp {nal} 1 1 " + " ".join(["f", "c1000"] * 5), f"decodenal {nal}"],
       "D0 (fixed 021d0c6): streaming reader delivered 00 00 03 01 un-stripped after a zero-free first window")
-write("C12", "d0-window", ["stream p:" + "00000167" + sps().hex() + "00000168" + pps_base(W()).hex() + "000001" + nal + " r"],
+write("C12", "d0-window", ["stream B p:" + "00000167" + sps().hex() + "00000168" + pps_base(W()).hex() + "000001" + nal + " r"],
       "D0 inside the whole pipeline: a slice NAL whose first window has no zero byte")
 # D11
 write("C03", "d11-decode-empty", ["decodenal - | B:", "decodenal 65 | B:", "decodenal 6500 | B:00"], "D11 (fixed f859732): decode_nal(&[]) panicked")
